@@ -2189,7 +2189,17 @@ fn generate_expression(
                     }
                     name => panic!("Unimplemented global intrinsic: {}", name),
                 }
+            } else if matches!(
+                context.global_variable_modes.get(v),
+                Some(GlobalMode::Constant)
+            ) {
+                // A constant stays a member of its namespace so is referenced with the full name
+                let scoped_name = context
+                    .name_map
+                    .get_name_qualified(NameSymbol::GlobalVariable(*v));
+                ast::Expression::Identifier(scoped_name_to_identifier(scoped_name))
             } else {
+                // Other globals are passed into the function as parameters with the leaf name
                 ast::Expression::Identifier(ast::ScopedIdentifier::trivial(
                     context.get_global_name(*v)?,
                 ))
